@@ -283,6 +283,9 @@ static NOINL void sort_case(int reversed) {
 static NOINL FunctionRemap *make_overload(CPPType *type) {
   FunctionRemap *r = raw_remap();
   new (&r->_parameters) FunctionRemap::Parameters();
+  // the comparator's tie-breaker: every overload of a set has its own signature
+  static char sig_serial = 'a';
+  new (&r->_function_signature) std::string(1, sig_serial++);
   r->_const_method = false;               // const-ness: c02_remap_compare
   r->_parameters.reserve(NPAR);
   for (int x = 0; x < NPAR; x++) {
